@@ -111,6 +111,15 @@ CHECKS["C20"] = dict(
     design="5/C20",
 )
 
+CHECKS["C07"] = dict(
+    technique="generated modules with adversarial top-level definitions formatted with safe=True; static reference model of the module surface (input strict, output liberal) and subset oracle",
+    text="Surface modules (unused / unconventionally named / duplicated / static / shadowing definitions, every assignment target form, classes with "
+         "all method kinds and attributes), families, grammar programs, repository examples and stdlib modules are formatted in safe mode; every "
+         "module-level function, class, assigned variable, method and class attribute of the input must still be bound under the same name.",
+    note="The surface model imports nothing from pyrefact; '_' is excluded as the tool's documented throw-away name; non-triviality is measured by formatting the same input with safe=False.",
+    design="5/C07",
+)
+
 NOT_YET = {}
 
 
